@@ -128,7 +128,8 @@ Print Assumptions C19_describe_tells_obs.
 
 (* yanglib_roundtrip: under rt_ok (same sources; every import means a module of the context, an import without
    revision-date only names a module with a single revision = imports_pinned; acyclic imports; import-only modules
-   are reachable from implemented ones) rebuilding from the description succeeds and the new context holds exactly
+   are reachable from implemented ones; the rebuilding context c0 may already hold modules of the original, the
+   implemented ones in any feature state) rebuilding from the description succeeds and the new context holds exactly
    the module records of the old one: the same implemented modules at the same revisions with the same enabled
    features and every import-only module the description lists.  Compilation is not modelled. *)
 Theorem C19_yanglib_roundtrip :
@@ -150,6 +151,19 @@ Example C19_hypotheses_satisfiable :
   rt_ok e_src e_s [] e_rk /\ rebuild (describe [] e_s) e_src [] = Ok e_s /\
   rebuild (describe [] (initial_ctx ++ e_s)) e_src initial_ctx = Ok (initial_ctx ++ e_s).
 Proof. split; [exact e_rt_ok|]. split; [exact e_rebuild|exact e_rebuild_internal]. Qed.
+
+(* the theorem covers rebuilding INTO a populated context (c0): an entry of c0 may be an implemented module of the
+   original with ANY feature state; here x is already implemented with g on and f, h off, and the rebuild sets
+   exactly the described features.  The feature array of an entry without feature leaves must be the empty array
+   (disable all), not NULL (keep): the model tells the two apart. *)
+Example C19_roundtrip_into_populated_context :
+  rt_ok e_src e_s e_c0pre e_rk /\ rebuild (describe [] e_s) e_src e_c0pre = Ok e_s /\
+  load_module 5 e_src e_c0pre e_x (Some e_r20) (F_list []) = Ok [e_X true false; e_A19; e_B] /\
+  load_module 5 e_src e_c0pre e_x (Some e_r20) F_keep = Ok e_c0pre.
+Proof.
+  split; [exact e_rt_ok_pre|]. split; [exact e_rebuild_pre|].
+  destruct e_keep_vs_empty as (H1 & H2 & _). split; assumption.
+Qed.
 
 (* outside imports_pinned the model does not answer (an import without revision-date of a module with two
    revisions); on the implementation the round trip can then fail (finding yl-import-only-rev) *)
